@@ -13,19 +13,34 @@ package workspace
 //@   ensures [key_le] old(counts[key]) <= amount ==> !has(counts, key)
 //@   modifies counts[*]
 
+//@ trusted (*WorkspaceIndex).refreshDerived
+//@   modifies idx.accounts, idx.payees, idx.commodities, idx.tags, idx.tagValues, idx.dates
+
+//@ trusted filterTransactions
+//@   ensures len(result) <= len(entries)
+
+//@ func (*WorkspaceIndex).decrementTagValueBy
+//@   props C12
+//@   effects noalloc
+//@   requires idx != nil
+//@   modifies idx.tagValueCounts[*], idx.tagValueCounts[*][*]
+
 //@ func copyIntMap
 //@   props C12
 //@   ensures [nil] source == nil ==> result == nil
 //@   ensures [copy] source != nil ==> fresh(result) && (forall k string :: result[k] == source[k] && (has(result, k) <==> has(source, k)))
 //@   loop 1 invariant source != nil && fresh(clone) && clone != source
-//@   loop 1 invariant forall k string :: iterseen1[k] ==> has(source, k)
-//@   loop 1 invariant forall k string :: has(clone, k) <==> iterseen1[k]
-//@   loop 1 invariant forall k string :: iterseen1[k] ==> clone[k] == source[k]
+//@   loop 1 invariant forall k string :: iterseen[k] ==> has(source, k)
+//@   loop 1 invariant forall k string :: has(clone, k) <==> iterseen[k]
+//@   loop 1 invariant forall k string :: iterseen[k] ==> clone[k] == source[k]
 //@   loop 1 modifies clone[*]
 
 //@ pred D5(a, b, c, d, e) := a != b && a != c && a != d && a != e && b != c && b != d && b != e && c != d && c != e && d != e
 //@ pred NotFi(m, fi) := m != fi.AccountCounts && m != fi.PayeeCounts && m != fi.CommodityCounts && m != fi.TagCounts
-//@ pred WI(idx, fi) := idx != nil && fi != nil && idx.accountCounts != nil && idx.payeeCounts != nil && idx.commodityCounts != nil && idx.tagCounts != nil && idx.dateCounts != nil && idx.fileIndexes != nil && idx.payeeTemplates != nil && D5(idx.accountCounts, idx.payeeCounts, idx.commodityCounts, idx.tagCounts, idx.dateCounts) && NotFi(idx.accountCounts, fi) && NotFi(idx.payeeCounts, fi) && NotFi(idx.commodityCounts, fi) && NotFi(idx.tagCounts, fi) && NotFi(idx.dateCounts, fi) && idx.payeeTemplates != fi.PayeeTemplates
+//@ pred SepInner(m, idx, fi) := m != idx.accountCounts && m != idx.payeeCounts && m != idx.commodityCounts && m != idx.tagCounts && m != idx.dateCounts && m != fi.AccountCounts && m != fi.PayeeCounts && m != fi.CommodityCounts && m != fi.TagCounts
+//@ pred InnerSep(idx, fi) := forall t string :: {idx.tagValueCounts[t]} SepInner(idx.tagValueCounts[t], idx, fi)
+//@ pred WI(idx, fi) := idx.tagValueCounts != nil && idx.transactionsByKey != nil && InnerSep(idx, fi) && WI0(idx, fi)
+//@ pred WI0(idx, fi) := idx != nil && fi != nil && idx.accountCounts != nil && idx.payeeCounts != nil && idx.commodityCounts != nil && idx.tagCounts != nil && idx.dateCounts != nil && idx.fileIndexes != nil && idx.payeeTemplates != nil && D5(idx.accountCounts, idx.payeeCounts, idx.commodityCounts, idx.tagCounts, idx.dateCounts) && NotFi(idx.accountCounts, fi) && NotFi(idx.payeeCounts, fi) && NotFi(idx.commodityCounts, fi) && NotFi(idx.tagCounts, fi) && NotFi(idx.dateCounts, fi) && idx.payeeTemplates != fi.PayeeTemplates
 
 //@ specdef cnt(ds []string, i int, k string) int := ite(i <= 0, 0, cnt(ds, i - 1, k) + ite(ds[i - 1] == k, 1, 0))
 
@@ -38,29 +53,41 @@ package workspace
 //@   ensures [tag] forall k string :: idx.tagCounts[k] == old(idx.tagCounts[k]) + fi.TagCounts[k]
 //@   ensures [date] forall k string :: idx.dateCounts[k] == old(idx.dateCounts[k]) + cnt(fi.Dates, len(fi.Dates), k)
 //@   ensures [files] idx.fileIndexes[path] == fi && (forall p string :: p != path ==> idx.fileIndexes[p] == old(idx.fileIndexes[p]))
+//@   ensures [innersep] InnerSep(idx, fi)
+//@   ensures [inner_prov] forall t string :: {idx.tagValueCounts[t]} idx.tagValueCounts[t] == 0 || idx.tagValueCounts[t] == old(idx.tagValueCounts[t]) || fresh(idx.tagValueCounts[t])
 //@   ensures [tmpl_in] forall p string :: has(fi.PayeeTemplates, p) ==> has(idx.payeeTemplates, p) && idx.payeeTemplates[p] == fi.PayeeTemplates[p]
 //@   ensures [tmpl_out] forall p string :: !has(fi.PayeeTemplates, p) ==> (has(idx.payeeTemplates, p) <==> old(has(idx.payeeTemplates, p))) && idx.payeeTemplates[p] == old(idx.payeeTemplates[p])
-//@   modifies idx.accountCounts[*], idx.payeeCounts[*], idx.commodityCounts[*], idx.tagCounts[*], idx.dateCounts[*], idx.payeeTemplates[*], idx.fileIndexes[*]
+//@   modifies idx.accountCounts[*], idx.payeeCounts[*], idx.commodityCounts[*], idx.tagCounts[*], idx.dateCounts[*], idx.payeeTemplates[*], idx.fileIndexes[*], idx.tagValueCounts[*], idx.tagValueCounts[*][*], idx.transactionsByKey[*]
+//@   modifies idx.accounts, idx.payees, idx.commodities, idx.tags, idx.tagValues, idx.dates
 //@   loop 1 modifies idx.accountCounts[*]
-//@   loop 1 invariant forall k string :: iterseen1[k] ==> has(fi.AccountCounts, k)
-//@   loop 1 invariant forall k string :: idx.accountCounts[k] == old(idx.accountCounts[k]) + ite(iterseen1[k], fi.AccountCounts[k], 0)
+//@   loop 1 invariant forall k string :: iterseen[k] ==> has(fi.AccountCounts, k)
+//@   loop 1 invariant forall k string :: idx.accountCounts[k] == old(idx.accountCounts[k]) + ite(iterseen[k], fi.AccountCounts[k], 0)
 //@   loop 2 modifies idx.payeeCounts[*]
-//@   loop 2 invariant forall k string :: iterseen2[k] ==> has(fi.PayeeCounts, k)
-//@   loop 2 invariant forall k string :: idx.payeeCounts[k] == old(idx.payeeCounts[k]) + ite(iterseen2[k], fi.PayeeCounts[k], 0)
+//@   loop 2 invariant forall k string :: iterseen[k] ==> has(fi.PayeeCounts, k)
+//@   loop 2 invariant forall k string :: idx.payeeCounts[k] == old(idx.payeeCounts[k]) + ite(iterseen[k], fi.PayeeCounts[k], 0)
 //@   loop 3 modifies idx.commodityCounts[*]
-//@   loop 3 invariant forall k string :: iterseen3[k] ==> has(fi.CommodityCounts, k)
-//@   loop 3 invariant forall k string :: idx.commodityCounts[k] == old(idx.commodityCounts[k]) + ite(iterseen3[k], fi.CommodityCounts[k], 0)
+//@   loop 3 invariant forall k string :: iterseen[k] ==> has(fi.CommodityCounts, k)
+//@   loop 3 invariant forall k string :: idx.commodityCounts[k] == old(idx.commodityCounts[k]) + ite(iterseen[k], fi.CommodityCounts[k], 0)
 //@   loop 4 modifies idx.tagCounts[*]
-//@   loop 4 invariant forall k string :: iterseen4[k] ==> has(fi.TagCounts, k)
-//@   loop 4 invariant forall k string :: idx.tagCounts[k] == old(idx.tagCounts[k]) + ite(iterseen4[k], fi.TagCounts[k], 0)
-//@   loop 5 modifies idx.dateCounts[*]
-//@   loop 5 invariant 0 - 1 <= rangeindex && rangeindex <= len(fi.Dates) - 1
-//@   loop 5 invariant forall k string :: idx.dateCounts[k] == old(idx.dateCounts[k]) + cnt(fi.Dates, rangeindex + 1, k)
-//@   loop 5 decreases len(fi.Dates) - rangeindex
-//@   loop 6 modifies idx.payeeTemplates[*]
-//@   loop 6 invariant forall p string :: iterseen5[p] ==> has(fi.PayeeTemplates, p)
-//@   loop 6 invariant forall p string :: iterseen5[p] ==> has(idx.payeeTemplates, p) && idx.payeeTemplates[p] == fi.PayeeTemplates[p]
-//@   loop 6 invariant forall p string :: !iterseen5[p] ==> (has(idx.payeeTemplates, p) <==> old(has(idx.payeeTemplates, p))) && idx.payeeTemplates[p] == old(idx.payeeTemplates[p])
+//@   loop 4 invariant forall k string :: iterseen[k] ==> has(fi.TagCounts, k)
+//@   loop 4 invariant forall k string :: idx.tagCounts[k] == old(idx.tagCounts[k]) + ite(iterseen[k], fi.TagCounts[k], 0)
+//@   loop 5 modifies idx.tagValueCounts[*], idx.tagValueCounts[*][*]
+//@   loop 5 invariant InnerSep(idx, fi)
+//@   loop 5 invariant forall t string :: {idx.tagValueCounts[t]} idx.tagValueCounts[t] == 0 || idx.tagValueCounts[t] == old(idx.tagValueCounts[t]) || fresh(idx.tagValueCounts[t])
+//@   loop 6 modifies idx.tagValueCounts[*], idx.tagValueCounts[*][*]
+//@   loop 6 invariant InnerSep(idx, fi) && idx.tagValueCounts[tagName] != nil
+//@   loop 6 invariant forall t string :: {idx.tagValueCounts[t]} idx.tagValueCounts[t] == 0 || idx.tagValueCounts[t] == old(idx.tagValueCounts[t]) || fresh(idx.tagValueCounts[t])
+//@   loop 7 modifies idx.transactionsByKey[*]
+//@   loop 7 invariant 0 - 1 <= rangeindex && rangeindex <= len(fi.Transactions) - 1
+//@   loop 7 decreases len(fi.Transactions) - rangeindex
+//@   loop 8 modifies idx.dateCounts[*]
+//@   loop 8 invariant 0 - 1 <= rangeindex && rangeindex <= len(fi.Dates) - 1
+//@   loop 8 invariant forall k string :: idx.dateCounts[k] == old(idx.dateCounts[k]) + cnt(fi.Dates, rangeindex + 1, k)
+//@   loop 8 decreases len(fi.Dates) - rangeindex
+//@   loop 9 modifies idx.payeeTemplates[*]
+//@   loop 9 invariant forall p string :: iterseen[p] ==> has(fi.PayeeTemplates, p)
+//@   loop 9 invariant forall p string :: iterseen[p] ==> has(idx.payeeTemplates, p) && idx.payeeTemplates[p] == fi.PayeeTemplates[p]
+//@   loop 9 invariant forall p string :: !iterseen[p] ==> (has(idx.payeeTemplates, p) <==> old(has(idx.payeeTemplates, p))) && idx.payeeTemplates[p] == old(idx.payeeTemplates[p])
 
 //@ lemma cnt_mono(ds []string, i int, j int, k string) induct j := {cnt(ds, i, k); cnt(ds, j, k)} 0 <= i && i <= j ==> cnt(ds, i, k) <= cnt(ds, j, k)
 //@ lemma cnt_nonneg(ds []string, i int, k string) induct i := {cnt(ds, i, k)} cnt(ds, i, k) >= 0
@@ -81,26 +108,36 @@ package workspace
 //@   ensures [tmpl_removed] forall p string :: has(fi.PayeeTemplates, p) ==> !has(idx.payeeTemplates, p)
 //@   ensures [tmpl_kept] forall p string :: !has(fi.PayeeTemplates, p) ==> (has(idx.payeeTemplates, p) <==> old(has(idx.payeeTemplates, p))) && idx.payeeTemplates[p] == old(idx.payeeTemplates[p])
 //@   ensures [files] !has(idx.fileIndexes, path)
-//@   modifies idx.accountCounts[*], idx.payeeCounts[*], idx.commodityCounts[*], idx.tagCounts[*], idx.dateCounts[*], idx.payeeTemplates[*], idx.fileIndexes[*]
+//@   modifies idx.accountCounts[*], idx.payeeCounts[*], idx.commodityCounts[*], idx.tagCounts[*], idx.dateCounts[*], idx.payeeTemplates[*], idx.fileIndexes[*], idx.tagValueCounts[*], idx.tagValueCounts[*][*], idx.transactionsByKey[*]
+//@   modifies idx.accounts, idx.payees, idx.commodities, idx.tags, idx.tagValues, idx.dates
 //@   loop 1 modifies idx.accountCounts[*]
-//@   loop 1 invariant forall k string :: iterseen1[k] ==> has(fi.AccountCounts, k)
-//@   loop 1 invariant forall k string :: idx.accountCounts[k] == old(idx.accountCounts[k]) - ite(iterseen1[k], fi.AccountCounts[k], 0)
+//@   loop 1 invariant forall k string :: iterseen[k] ==> has(fi.AccountCounts, k)
+//@   loop 1 invariant forall k string :: idx.accountCounts[k] == old(idx.accountCounts[k]) - ite(iterseen[k], fi.AccountCounts[k], 0)
 //@   loop 2 modifies idx.payeeCounts[*]
-//@   loop 2 invariant forall k string :: iterseen2[k] ==> has(fi.PayeeCounts, k)
-//@   loop 2 invariant forall k string :: idx.payeeCounts[k] == old(idx.payeeCounts[k]) - ite(iterseen2[k], fi.PayeeCounts[k], 0)
+//@   loop 2 invariant forall k string :: iterseen[k] ==> has(fi.PayeeCounts, k)
+//@   loop 2 invariant forall k string :: idx.payeeCounts[k] == old(idx.payeeCounts[k]) - ite(iterseen[k], fi.PayeeCounts[k], 0)
 //@   loop 3 modifies idx.commodityCounts[*]
-//@   loop 3 invariant forall k string :: iterseen3[k] ==> has(fi.CommodityCounts, k)
-//@   loop 3 invariant forall k string :: idx.commodityCounts[k] == old(idx.commodityCounts[k]) - ite(iterseen3[k], fi.CommodityCounts[k], 0)
+//@   loop 3 invariant forall k string :: iterseen[k] ==> has(fi.CommodityCounts, k)
+//@   loop 3 invariant forall k string :: idx.commodityCounts[k] == old(idx.commodityCounts[k]) - ite(iterseen[k], fi.CommodityCounts[k], 0)
 //@   loop 4 modifies idx.tagCounts[*]
-//@   loop 4 invariant forall k string :: iterseen4[k] ==> has(fi.TagCounts, k)
-//@   loop 4 invariant forall k string :: idx.tagCounts[k] == old(idx.tagCounts[k]) - ite(iterseen4[k], fi.TagCounts[k], 0)
-//@   loop 5 modifies idx.dateCounts[*]
-//@   loop 5 invariant 0 - 1 <= rangeindex && rangeindex <= len(fi.Dates) - 1
-//@   loop 5 invariant forall k string :: idx.dateCounts[k] == old(idx.dateCounts[k]) - cnt(fi.Dates, rangeindex + 1, k)
-//@   loop 5 decreases len(fi.Dates) - rangeindex
-//@   loop 6 modifies idx.payeeTemplates[*]
-//@   loop 6 invariant forall p string :: iterseen5[p] ==> has(fi.PayeeTemplates, p) && !has(idx.payeeTemplates, p)
-//@   loop 6 invariant forall p string :: !iterseen5[p] ==> (has(idx.payeeTemplates, p) <==> old(has(idx.payeeTemplates, p))) && idx.payeeTemplates[p] == old(idx.payeeTemplates[p])
+//@   loop 4 invariant forall k string :: iterseen[k] ==> has(fi.TagCounts, k)
+//@   loop 4 invariant forall k string :: idx.tagCounts[k] == old(idx.tagCounts[k]) - ite(iterseen[k], fi.TagCounts[k], 0)
+//@   loop 5 modifies idx.tagValueCounts[*], idx.tagValueCounts[*][*]
+//@   loop 5 invariant InnerSep(idx, fi)
+//@   loop 5 invariant forall t string :: {idx.tagValueCounts[t]} idx.tagValueCounts[t] == 0 || idx.tagValueCounts[t] == old(idx.tagValueCounts[t])
+//@   loop 6 modifies idx.tagValueCounts[*], idx.tagValueCounts[*][*]
+//@   loop 6 invariant InnerSep(idx, fi)
+//@   loop 6 invariant forall t string :: {idx.tagValueCounts[t]} idx.tagValueCounts[t] == 0 || idx.tagValueCounts[t] == old(idx.tagValueCounts[t])
+//@   loop 7 modifies idx.transactionsByKey[*]
+//@   loop 7 invariant 0 - 1 <= rangeindex && rangeindex <= len(fi.Transactions) - 1
+//@   loop 7 decreases len(fi.Transactions) - rangeindex
+//@   loop 8 modifies idx.dateCounts[*]
+//@   loop 8 invariant 0 - 1 <= rangeindex && rangeindex <= len(fi.Dates) - 1
+//@   loop 8 invariant forall k string :: idx.dateCounts[k] == old(idx.dateCounts[k]) - cnt(fi.Dates, rangeindex + 1, k)
+//@   loop 8 decreases len(fi.Dates) - rangeindex
+//@   loop 9 modifies idx.payeeTemplates[*]
+//@   loop 9 invariant forall p string :: iterseen[p] ==> has(fi.PayeeTemplates, p) && !has(idx.payeeTemplates, p)
+//@   loop 9 invariant forall p string :: !iterseen[p] ==> (has(idx.payeeTemplates, p) <==> old(has(idx.payeeTemplates, p))) && idx.payeeTemplates[p] == old(idx.payeeTemplates[p])
 
 //@ func ghostAddThenRemove
 //@   props C12
@@ -108,7 +145,8 @@ package workspace
 //@   requires NonNeg(idx.accountCounts) && NonNeg(idx.payeeCounts) && NonNeg(idx.commodityCounts) && NonNeg(idx.tagCounts) && NonNeg(idx.dateCounts)
 //@   ensures [inverse_counts] forall k string :: idx.accountCounts[k] == old(idx.accountCounts[k]) && idx.payeeCounts[k] == old(idx.payeeCounts[k]) && idx.commodityCounts[k] == old(idx.commodityCounts[k]) && idx.tagCounts[k] == old(idx.tagCounts[k]) && idx.dateCounts[k] == old(idx.dateCounts[k])
 //@   ensures [C12:inverse_templates] forall p string :: (has(idx.payeeTemplates, p) <==> old(has(idx.payeeTemplates, p))) && idx.payeeTemplates[p] == old(idx.payeeTemplates[p])
-//@   modifies idx.accountCounts[*], idx.payeeCounts[*], idx.commodityCounts[*], idx.tagCounts[*], idx.dateCounts[*], idx.payeeTemplates[*], idx.fileIndexes[*]
+//@   modifies idx.accountCounts[*], idx.payeeCounts[*], idx.commodityCounts[*], idx.tagCounts[*], idx.dateCounts[*], idx.payeeTemplates[*], idx.fileIndexes[*], idx.tagValueCounts[*], idx.tagValueCounts[*][*], idx.transactionsByKey[*]
+//@   modifies idx.accounts, idx.payees, idx.commodities, idx.tags, idx.tagValues, idx.dates
 
 //@ func ghostAddOnly
 //@   props C12
@@ -117,7 +155,8 @@ package workspace
 //@   ensures [fi_nonneg] NonNeg(fi.AccountCounts)
 //@   ensures [contained] Contained(idx.accountCounts, fi.AccountCounts)
 //@   ensures [fi_same] forall k string :: fi.AccountCounts[k] == old(fi.AccountCounts[k])
-//@   modifies idx.accountCounts[*], idx.payeeCounts[*], idx.commodityCounts[*], idx.tagCounts[*], idx.dateCounts[*], idx.payeeTemplates[*], idx.fileIndexes[*]
+//@   modifies idx.accountCounts[*], idx.payeeCounts[*], idx.commodityCounts[*], idx.tagCounts[*], idx.dateCounts[*], idx.payeeTemplates[*], idx.fileIndexes[*], idx.tagValueCounts[*], idx.tagValueCounts[*][*], idx.transactionsByKey[*]
+//@   modifies idx.accounts, idx.payees, idx.commodities, idx.tags, idx.tagValues, idx.dates
 
 // ghost lemma functions (would live in the verif-tagged contract file)
 
